@@ -90,6 +90,21 @@ Section SparseModel.
           sumf (fun d => sumf (fun q => ev e i (fst q) d * f e (fst q) d * snd q) rule) (seq 0 dim) * intel e
         else 0) (seq 0 (sp_ns S))) (support_elements nel S).
 
+  (* get_function_quadrature_information + the vectorised callable + _project_function_vectorized:
+     `for index, element in enumerate(support_elements)`; function_data[:, index*npoints + k] is addressed by the
+     POSITION index of the element in the support and the number k of the quadrature point, everything else
+     (basis values, local2global, integration_elements) by the element number *)
+  Definition enumerate {B} (l : list B) : list (nat * B) := combine (seq 0 (length l)) l.
+  Definition project_vectorized (nel dim : nat) (rule : list (pt2 A * A)) (intel : nat -> A) (S : space A) (ev : basisfn)
+             (fdata : nat -> nat -> nat -> A) : nat -> A :=
+    fun r =>
+      sumf (fun pe => let '(pos, e) := pe in
+        sumf (fun i =>
+          if Nat.eqb r (sp_l2g S e i) then
+            sumf (fun d => sumf (fun kq => let '(k, q) := kq in ev e i (fst q) d * fdata pos k d * snd q)
+                                (enumerate rule)) (seq 0 dim) * intel e
+          else 0) (seq 0 (sp_ns S))) (enumerate (support_elements nel S)).
+
   (* GridFunction.evaluate: tensordot(space.evaluate(e, p), grid_coefficients[local2global[e]]) *)
   Definition gf_eval (S : space A) (ev : basisfn) (coef : nat -> A) (e : nat) (p : pt2 A) (d : nat) : A :=
     sumf (fun i => ev e i p d * coef (sp_l2g S e i)) (seq 0 (sp_ns S)).
